@@ -28,9 +28,14 @@ type gen struct {
 	loads  int  // load events so far
 	symOK  bool
 	maxW   int
+	far    bool // two clusters of addresses 2^63 apart
+	tiny   bool // mostly 1-2 byte accesses (with a wide window: many separate blocks)
 }
 
 func (g *gen) width() int {
+	if g.tiny && g.r.Chance(3, 4) {
+		return g.r.Range(1, 2)
+	}
 	var w int
 	switch g.r.Weighted([]int{60, 25, 10, 5}) {
 	case 0:
@@ -48,7 +53,13 @@ func (g *gen) width() int {
 	return w
 }
 
-func (g *gen) addr() uint64 { return g.base + uint64(g.r.Intn(g.win)) }
+func (g *gen) addr() uint64 {
+	a := g.base + uint64(g.r.Intn(g.win))
+	if g.far && g.r.Chance(1, 3) {
+		a ^= 1 << 63 // a second cluster, 2^63 away from the first
+	}
+	return a
+}
 
 func (g *gen) constVal(w int) *refeval.J {
 	bs := g.r.Bytes(w)
@@ -197,6 +208,13 @@ func (g *gen) pickBase() {
 		g.base = uint64(g.r.Intn(1 << 20))
 	}
 	g.win = []int{8, 16, 32, 64}[g.r.Intn(4)]
+	if g.r.Chance(1, 6) {
+		g.far = true
+	}
+	if g.r.Chance(1, 6) {
+		// a wide window sprinkled with very small pieces: many separate blocks
+		g.win, g.tiny = 256, true
+	}
 }
 
 func nOps(r *core.Rand, tier string) int {
